@@ -607,4 +607,156 @@ theorem parse_ok (isWord : Nat → Bool) (env : Env) (henv : envOk env = true) (
     subst h
     exact (newReplacerData_ok isWord env henv hc rep d hd).2
 
+/-! ### the API level -/
+
+theorem ofOption_ne_panic {α : Type} (o : Option α) (h : Res.ofOption o ≠ .panic) : ∃ r, o = some r := by
+  cases o with
+  | none => simp [Res.ofOption] at h
+  | some r => exact ⟨r, rfl⟩
+
+theorem replaceWith_eq (text : List Nat) (ms : List Match) (pieces : List Piece)
+    (ex : Match → Option (List Nat)) (exR : Match → Option (List (List Nat)))
+    (hex : ∀ m x, ex m = some x → x = expand pieces text m)
+    (hexR : ∀ m es, exR m = some es → es = pieces.reverse.map (pieceText text m))
+    (count : Int) (rtl : Bool) (h : replaceWith text ms ex exR count rtl ≠ .panic) :
+    replaceWith text ms ex exR count rtl = replace text ms pieces count rtl := by
+  unfold replaceWith at h ⊢
+  unfold replace
+  by_cases h1 : count < -1
+  · simp [h1]
+  simp only [h1, if_false] at h ⊢
+  by_cases h0 : count = 0
+  · simp [h0]
+  simp only [h0, if_false] at h ⊢
+  cases ms with
+  | nil => rfl
+  | cons m rest =>
+    simp only at h ⊢
+    cases rtl with
+    | true =>
+      simp only [if_true] at h ⊢
+      obtain ⟨r, hr⟩ := ofOption_ne_panic _ h
+      rw [hr, replaceRTL, loopRTLStrict_eq text pieces exR hexR _ _ _ _ r hr]
+    | false =>
+      simp only [Bool.false_eq_true, if_false] at h ⊢
+      obtain ⟨r, hr⟩ := ofOption_ne_panic _ h
+      rw [hr, replaceLTR, loopLTRStrict_eq text pieces ex hex _ _ _ _ r hr]
+
+theorem replaceWith_agree (text : List Nat) (ms : List Match) (pieces : List Piece)
+    (ex : Match → Option (List Nat)) (exR : Match → Option (List (List Nat)))
+    (hex : ∀ m ∈ ms, ex m = some (expand pieces text m))
+    (hexR : ∀ m ∈ ms, exR m = some (pieces.reverse.map (pieceText text m)))
+    (count : Int) (rtl : Bool) :
+    replaceWith text ms ex exR count rtl = replace text ms pieces count rtl := by
+  unfold replaceWith replace replaceRTL replaceLTR
+  rw [loopRTLStrict_agree text pieces exR ms _ _ _ hexR, loopLTRStrict_agree text pieces ex ms _ _ _ hex]
+  cases ms <;> rfl
+
+theorem replaceFuncStrict_eq (text : List Nat) (ms : List Match) (ev : Match → Option (List Nat)) (ev' : Match → List Nat)
+    (hev : ∀ m x, ev m = some x → x = ev' m)
+    (count : Int) (rtl : Bool) (h : replaceFuncStrict text ms ev count rtl ≠ .panic) :
+    replaceFuncStrict text ms ev count rtl = replaceFunc text ms ev' count rtl := by
+  unfold replaceFuncStrict at h ⊢
+  unfold replaceFunc
+  by_cases h1 : count < -1
+  · simp [h1]
+  simp only [h1, if_false] at h ⊢
+  by_cases h0 : count = 0
+  · simp [h0]
+  simp only [h0, if_false] at h ⊢
+  cases ms with
+  | nil => rfl
+  | cons m rest =>
+    simp only at h ⊢
+    cases rtl with
+    | true =>
+      simp only [if_true] at h ⊢
+      obtain ⟨r, hr⟩ := ofOption_ne_panic _ h
+      rw [hr, loopFuncRTLStrict_eq text ev ev' hev _ _ _ _ r hr]
+    | false =>
+      simp only [Bool.false_eq_true, if_false] at h ⊢
+      obtain ⟨r, hr⟩ := ofOption_ne_panic _ h
+      rw [hr, loopFuncLTRStrict_eq text ev ev' hev _ _ _ _ r hr]
+
+theorem replaceFuncStrict_agree (text : List Nat) (ms : List Match) (ev : Match → Option (List Nat)) (ev' : Match → List Nat)
+    (hev : ∀ m ∈ ms, ev m = some (ev' m)) (count : Int) (rtl : Bool) :
+    replaceFuncStrict text ms ev count rtl = replaceFunc text ms ev' count rtl := by
+  unfold replaceFuncStrict replaceFunc
+  rw [loopFuncRTLStrict_agree text ev ev' ms _ _ _ hev, loopFuncLTRStrict_agree text ev ev' ms _ _ _ hev]
+  cases ms <;> rfl
+
+theorem splitStrict_eq (text : List Nat) (ms : List Match) (count : Int) (rtl : Bool)
+    (h : splitStrict text ms count rtl ≠ .panic) : splitStrict text ms count rtl = split text ms count rtl := by
+  unfold splitStrict at h ⊢
+  unfold split
+  by_cases h1 : count < -1
+  · simp [h1]
+  simp only [h1, if_false] at h ⊢
+  by_cases h0 : count = 0
+  · simp [h0]
+  simp only [h0, if_false] at h ⊢
+  by_cases h2 : count = 1
+  · simp [h2]
+  simp only [h2, if_false] at h ⊢
+  cases ms with
+  | nil => rfl
+  | cons m rest =>
+    simp only at h ⊢
+    obtain ⟨r, hr⟩ := ofOption_ne_panic _ h
+    rw [hr, splitLoopStrict_eq text rtl _ _ _ _ r hr]
+
+theorem splitStrict_agree (text : List Nat) (ms : List Match) (count : Int) (rtl : Bool)
+    (hm : ∀ m ∈ ms, capTexts? text m = some (capTexts text m)) :
+    splitStrict text ms count rtl = split text ms count rtl := by
+  unfold splitStrict split
+  simp only [splitLoopStrict_agree text rtl ms _ _ _ hm]
+  cases ms <;> rfl
+
+/-! ### a slot the match does not have panics -/
+
+theorem collect_map_none {α β : Type} (f : α → Option β) : ∀ (l : List α) (x : α), x ∈ l → f x = none → collect (l.map f) = none := by
+  intro l
+  induction l with
+  | nil => intro x hx; simp at hx
+  | cons a rest ih =>
+    intro x hx hf
+    simp only [List.map_cons]
+    cases hfa : f a with
+    | none => rfl
+    | some b =>
+      have hx' : x ∈ rest := by
+        rcases List.mem_cons.mp hx with rfl | h
+        · rw [hf] at hfa; cases hfa
+        · exact h
+      simp [collect, ih x hx' hf]
+
+theorem groupText?_none (text : List Nat) (m : Match) (slot : Nat) (h : m.groups.length < slot) :
+    groupText? text m slot = none := by
+  unfold groupText?
+  cases slot with
+  | zero => omega
+  | succ k =>
+    have : m.groups[k]? = none := List.getElem?_eq_none (by omega)
+    simp [groupSpan?, this]
+
+theorem expand?_none (pieces : List Piece) (text : List Nat) (m : Match) (slot : Nat)
+    (hp : Piece.group slot ∈ pieces) (h : m.groups.length < slot) :
+    expand? pieces text m = none ∧ expandRTL? pieces text m = none := by
+  have hn : pieceText? text m (.group slot) = none := groupText?_none text m slot h
+  constructor
+  · simp [expand?, collect_map_none _ pieces _ hp hn]
+  · exact collect_map_none _ pieces.reverse _ (by simpa using hp) hn
+
+theorem loopLTRStrict_first_none (text : List Nat) (ex : Match → Option (List Nat)) (m : Match) (rest : List Match)
+    (prevat : Nat) (buf : List Nat) (count : Int) (h : ex m = none) :
+    loopLTRStrict text ex (m :: rest) prevat buf count = none := by
+  simp only [loopLTRStrict, h]
+  cases (if m.index ≠ prevat then sliceLoop text prevat m.index else some []) <;> rfl
+
+theorem loopRTLStrict_first_none (text : List Nat) (exR : Match → Option (List (List Nat))) (m : Match) (rest : List Match)
+    (prevat : Nat) (al : List (List Nat)) (count : Int) (h : exR m = none) :
+    loopRTLStrict text exR (m :: rest) prevat al count = none := by
+  simp only [loopRTLStrict, h]
+  cases (if m.index + m.len ≠ prevat then (sliceExpr text (m.index + m.len) prevat).map (fun g => al ++ [g]) else some al) <;> rfl
+
 end RegexVerif.Lemmas.ReplaceStrict
